@@ -148,6 +148,10 @@ def bit_patterns(nbits, rng, n_random=4):
     out = {0xAAAAAAAAAAAAAAAAAAAAAAAAAAAAAAAAAAAAAAAAAAAAAAAAAAAAAAAAAAAAAAAAAAAAAAAAAAAAAAAAAAAAAAAAAAAAAAAA & full,
            0x5555555555555555555555555555555555555555555555555555555555555555555555555555555555555555555555555 & full,
            full, full >> 1, full ^ (full >> (nbits // 2)), full >> (nbits // 2), 1 << (nbits - 1), (1 << (nbits - 1)) | 1}
+    if nbits >= 128:
+        # two-sided sparse: a high bit (or small cluster) and a low one with nothing in between
+        for hi_ in (nbits - 1, nbits - 2, nbits - 17, (nbits * 4) // 5):
+            out |= {(1 << hi_) | 1, (1 << hi_) + 12345, (1 << hi_) | (1 << 3), (3 << (hi_ - 1)) | (1 << 7), (1 << hi_) | (1 << (nbits // 8))}
     base = rng.getrandbits(nbits) | (1 << (nbits - 1))
     for off in {0, 1, nb // 2, nb - 2, nb - 1} | {rng.randrange(nb) for _ in range(n_random)}:
         out.add(base & ~(0xFF << (8 * off)) & full)                # a zero byte at this offset
